@@ -160,7 +160,7 @@ def build_tasks(quick):
                     if not spaced and text in ("5.", "1e3"):
                         continue          # `5.ns`, `1e3ns`: what the lexer does with these spellings is C15's subject
                     T.append(("float", text, neg, suffix, spaced))
-    for n in (1, 2, 4, 8) if quick else (1, 2, 3, 4, 8, 16):
+    for n in (1, 2, 4, 8) if quick else (1, 2, 3, 4, 8, 10):          # every bit is a path split: 2^n paths
         T.append(("bits", n, False))
         if n > 1:
             T.append(("bits", n, True))
@@ -179,4 +179,4 @@ def run_asg(ctx, res):
     ctx.log(f"literal -> graph: {st.get('paths', 0)} paths over {len(tasks)} literal templates: {dict(counts)} panic={st.get('panic', 0)} violation={st.get('violation', 0)} unsupported={st.get('unsupported', 0)}")
     semh.triage(ctx, res, "C10", fails, panic_is="violation")
     res.functions_encoded += ["oq3_semantics::syntax_to_semantics::{expr_to_asg_texpr (Literal, PrefixExpr, TimingLiteral arms), literal_to_asg_texpr, negative_int_to_asg_type, negative_float_number_to_asg_type}", "oq3_semantics::asg::{IntLiteral, FloatLiteral, BitStringLiteral, TimingIntLiteral, TimingFloatLiteral, BoolLiteral}", "oq3_syntax::ast::token_ext::{IntNumber::value_u128, BitString::str, TimingLiteral accessors}"]
-    res.bounds.update({"graph_arm": "decimal <= 9 (quick) / 12 digits, hex <= 4 / 8, octal, binary; 6 units + im with and without blank; bit strings <= 8 / 16 bits"})
+    res.bounds.update({"graph_arm": "decimal <= 9 (quick) / 12 digits, hex <= 4 / 8, octal, binary; 6 units + im with and without blank; bit strings <= 8 / 10 bits"})
